@@ -86,6 +86,16 @@ func buildArena(sc *pw.Scenario) error {
 	for i := 0; i < 30; i++ {
 		os.WriteFile(fmt.Sprintf("/w/big/f%02d", i), bytes.Repeat([]byte{byte('a' + i%26), byte('0' + i%10)}, 1500+37*i), 0o644)
 	}
+	// pin the times of the auxiliary trees too: they end up in archive headers and so in the
+	// sizes of simulated writes
+	for _, d := range []string{"/w/hist1", "/w/hist2", "/w/hist3", "/w/hist4", "/w/big", "/w/src-evil"} {
+		filepath.Walk(d, func(p string, info os.FileInfo, err error) error {
+			if err == nil {
+				setTimes(p, 1300000002, 0)
+			}
+			return nil
+		})
+	}
 	order := pw.ParentsFirst(sc.Tree)
 	for _, i := range order {
 		n := sc.Tree[i]
@@ -379,6 +389,9 @@ func Run(sc *pw.Scenario) *simkit.Outcome {
 				os.WriteFile("/w/hist5/.terraformignore", []byte(other), 0o644)
 				for _, n := range []string{"a", "b", "c", "d"} {
 					os.WriteFile("/w/hist5/"+n, []byte("h5"+n), 0o644)
+				}
+				for _, n := range []string{"a", "b", "c", "d", ""} {
+					setTimes("/w/hist5/"+n, 1300000002, 0)
 				}
 				setTimes("/w/hist5/.terraformignore", 1300000001, 0)
 				os.Chdir("/w/hist5")
